@@ -320,13 +320,16 @@ c.modifies("G.sem_rel", "G.sem_acq", "G.sem_val")
 i = M.invariant("Condition.notify", 0, "while self._woken_count.acquire(False):")
 i.inv("rezero-pairs-each-woken-token-with-a-sleeping-token", f"G.sem_acq[{WK}] - old(G.sem_acq[{WK}]) == G.sem_acq[{SL}] - old(G.sem_acq[{SL}]) + 0 and "
       f"G.sem_rel == old(G.sem_rel) and G.sem_acq[{WS}] == old(G.sem_acq[{WS}])")
+i.inv("no-stale-wakeup-token", f"G.sem_val[{WS}] == 0")
 
+S.contracts[f"{SY}:Condition.notify"].ensures("notify/wait-semaphore-left-at-zero", f"G.sem_val[{WS}] == 0")
 c = M.contract("Condition.notify_all", props=["C14"])
 c.param("self", T.Ref("Condition"))
 c.requires("distinct-semaphores", DISTINCT)
 c.ensures("notify-all/releases-only-the-wait-semaphore", f"{delta('sem_rel', LK)} == 0 and {delta('sem_rel', SL)} == 0 and {delta('sem_rel', WK)} == 0 and {delta('sem_rel', WS)} >= 0")
 c.ensures("notify-all/one-wakeup-per-sleeper-token-and-one-woken-token-awaited-per-wakeup",
           f"{delta('sem_rel', WS)} <= {delta('sem_acq', SL)} and {delta('sem_acq', WK)} >= {delta('sem_rel', WS)}")
+c.ensures("notify-all/wait-semaphore-left-at-zero", f"G.sem_val[{WS}] == 0")
 c.raises("notify-all/not-owner-or-stale-wakeup", "AssertionError")
 c.raises("notify-all/a-refused-release-propagates", "ValueError")
 c.raises_only("notify-all/only-those")
@@ -334,10 +337,12 @@ c.modifies("G.sem_rel", "G.sem_acq", "G.sem_val")
 i = M.invariant("Condition.notify_all", 0, "while self._woken_count.acquire(False):")
 i.inv("rezero-pairs-tokens", f"G.sem_rel == old(G.sem_rel) and G.sem_acq[{WS}] == old(G.sem_acq[{WS}]) and "
       f"G.sem_acq[{WK}] - old(G.sem_acq[{WK}]) == G.sem_acq[{SL}] - old(G.sem_acq[{SL}]) and G.sem_acq[{WK}] >= old(G.sem_acq[{WK}])")
+i.inv("no-stale-wakeup-token", f"G.sem_val[{WS}] == 0")
 i = M.invariant("Condition.notify_all", 1, "while self._sleeping_count.acquire(False):")
 i.inv("one-release-per-sleeper-taken", f"sleepers >= 0 and G.sem_rel[{WS}] == at_entry(G.sem_rel[{WS}]) + sleepers and "
       f"G.sem_acq[{SL}] == at_entry(G.sem_acq[{SL}]) + sleepers and G.sem_acq[{WK}] == at_entry(G.sem_acq[{WK}])")
 i.inv("releases-only-the-wait-semaphore", f"forall(Ref('_SemLock'), lambda s: implies(s is not {WS}, G.sem_rel[s] == at_entry(G.sem_rel[s])))")
+i.inv("one-token-per-wakeup", f"G.sem_val[{WS}] == sleepers")
 i = M.invariant("Condition.notify_all", 2, "for _ in range(sleepers):")
 i.inv("one-woken-token-per-sleeper", f"G.sem_acq[{WK}] == at_entry(G.sem_acq[{WK}]) + __i2 and G.sem_rel == at_entry(G.sem_rel) and "
       f"G.sem_acq[{SL}] == at_entry(G.sem_acq[{SL}])")
